@@ -512,6 +512,9 @@ def write_meta_data(md, md_file):
             if isinstance(val, float):
                 if val.is_integer():
                     val = int(val)
+                else:
+                    # no exponent notation (1e-05): read_meta_data only interprets digits, dots and commas as numbers
+                    val = np.format_float_positional(val, trim="-")
             fid.write(f"{key}={val}\n")
 
 
